@@ -13,6 +13,10 @@ def where(tag):
     return [_os.getcwd(), tag]
 
 
+def kwshow(**kw):
+    return [[k, v] for k, v in kw.items()]
+
+
 def describe(x):
     return [type(x).__name__, repr(x)]
 
@@ -80,6 +84,12 @@ def main():
             rec("object with state %r, executor %d" % (box.content, rnd), e.submit(unpack, box), box.content)
             box.content = "second" if rnd == 0 else "third"
             rec("same object after its state changed to %r, executor %d" % (box.content, rnd), e.submit(unpack, box), box.content)
+    # the order of keyword arguments is visible to the function (PEP 468): the same keywords in another order are another call
+    cache3 = os.path.join(base, "cache_kw")
+    for rnd in range(2):
+        with executorlib.Executor(backend="local", block_allocation=bool(rnd), cache_directory=cache3, **({"max_workers": 1} if rnd else {"max_cores": 1})) as e:
+            for kws in ({"create": 1, "file": "a"}, {"file": "a", "create": 1}, {"create": 1, "file": "a"}, {"file": "a", "create": 1, "z": 0}, {"z": 0, "file": "a", "create": 1}):
+                rec("keyword order %r, executor %d" % (list(kws), rnd), e.submit(kwshow, **kws), kwshow(**kws))
     print(json.dumps(out), flush=True)
     os._exit(0)
 
